@@ -449,6 +449,9 @@ impl Engine for C13 {
             let needs_lookup = |i: usize| -> bool { !(run.app_path && kind_of(i) == 1) };
             let attempted = if run.app_path { (0..refs.len()).position(|i| needs_lookup(i) && refs[i].is_err()).map(|i| i + 1).unwrap_or(refs.len()) } else { refs.len() };
             let mut needed_years: BTreeSet<i32> = BTreeSet::new();
+            // years in which the run's look-ups need any date at all: the download clauses of C13
+            // speak of "the requested date", so a request for a year no look-up needs is not judged
+            let mut touched_years: BTreeSet<i32> = BTreeSet::new();
             let mut loaded_from_cache: BTreeSet<i32> = BTreeSet::new();
             let mut miss_after_cache_load = false;
             for (i, d) in lookups.iter().enumerate().take(attempted) {
@@ -458,6 +461,7 @@ impl Engine for C13 {
                 let touched = ref_touched(&boc, today, pt, *d);
                 for x in &touched {
                     let y = x.year();
+                    touched_years.insert(y);
                     let have = persisted.get(&y).map(|s| s.contains(x)).unwrap_or(false);
                     if !have {
                         needed_years.insert(y);
@@ -584,7 +588,7 @@ impl Engine for C13 {
                     }
                 }
                 for rq in &obs.requests {
-                    if rq.url_ok && !needed_by_history.contains(&rq.year) && downloaded_on.contains_key(&rq.year) {
+                    if rq.url_ok && touched_years.contains(&rq.year) && !needed_by_history.contains(&rq.year) && downloaded_on.contains_key(&rq.year) {
                         let (t, _) = downloaded_on[&rq.year];
                         push(Violation { kind: "unneeded_download".into(), signature: "download although an earlier run's download of that year already covered every requested date".into(), detail: format!("run {} (today {}, not forced, {:?} cache): request for {} although an earlier run downloaded that year successfully on {} and every date the look-ups {:?} need in it lies before that day\n  cached year {} held dates up to {:?} at the start of this run", ri, today, sc.cache, rq.year, t, shown, rq.year, persisted.get(&rq.year).and_then(|s| s.iter().next_back().map(|d| d.to_string()))) }, &mut violations);
                     }
@@ -607,7 +611,7 @@ impl Engine for C13 {
                     *ok_by_year.entry(rq.year).or_insert(0) += 1;
                 }
                 let read_fault = obs.proc.fs_faults_fired.contains_key("open_read_error") || obs.proc.fs_faults_fired.contains_key("read_error");
-                if !run.force && rq.url_ok && !needed_years.contains(&rq.year) && !read_fault {
+                if !run.force && rq.url_ok && touched_years.contains(&rq.year) && !needed_years.contains(&rq.year) && !read_fault {
                     push(Violation { kind: "unneeded_download".into(), signature: "download although the cached year covers every requested date".into(), detail: format!("run {} (today {}, not forced): request for {} although every date the look-ups {:?} need in that year was in the cache at the start of the run", ri, today, rq.year, shown) }, &mut violations);
                 }
             }
